@@ -391,6 +391,10 @@ class Engine:
                 'metadata': SDict(fresh(name + '_md_dom', SetVal), fresh(name + '_md_val', vl.MapVal),
                                   fresh(name + '_md_keys', SeqVal)),
             })
+        if ty == 'obj':
+            # an object whose value is only an abstract state (used where functions are composed and
+            # nothing but their order and arguments matters)
+            return SObj('Opaque', {'state': V(fresh(name + '_state', Val))})
         if ty == 'Iter':
             return SObj('Iter', {'seq': V(VList(fresh(name + '_seq', SeqVal)))})
         if ty == 'TokenIterator':
@@ -1464,4 +1468,4 @@ BUILTIN_NAMES = {'len', 'isinstance', 'str', 'list', 'set', 'dict', 'tuple', 're
                  'set_of_seq', 'set_add', 'set_union', 'set_where', 'subset', 'dict_has', 'dict_get', 'dict_keys', 'dict_values_str',
                  'mk', 'noop', 'norm_has', 'norm_get', 'reif_has', 'reif_get', 'dereif_has', 'dereif_get',
                  'top_role', 'aln_marker', 'aln_ok', 'str_of', 'json_dumps', 'json_container', 'keyof', 'key_le', 'seq_eq',
-                 'is_atomic', 'last_index', 'fld', 'nfields', 'is_sorted_by', 'perm_of', 'multiset_eq'}
+                 'is_atomic', 'last_index', 'fld', 'nfields', 'truthy', 'is_sorted_by', 'perm_of', 'multiset_eq'}
